@@ -365,6 +365,11 @@ func (r *e2e) fire(c *ctlState) {
 			k.Note(name, "ctl.pause.returned")
 		}()
 	case "kill":
+		if c.a.Trigger.AtStep > 0 {
+			k.Fault("kill-at-scheduler-step")
+		} else {
+			k.Fault("kill-at-hook-point")
+		}
 		r.k.End("killed")
 		r.rec.EndReason = "killed"
 		r.finish()
